@@ -89,9 +89,15 @@ def internal_forces(vk, cfg):
         vk.canary("moment-tensor==0", M, 0 * M) if vk.sym else None
 
 
-@contract("C14", "loads", configs=[dict(item=i, template=t) for i in ("bodyforce", "gravity", "mass") for t in ("RegionTriangle", "RegionQuad", "RegionTetra", "RegionQuadraticTriangle")] + [dict(item="pointload", axi=a) for a in (False, True)] + [dict(item="pointload", axi=a, apply_on=1) for a in (False, True)] + [dict(item=i) for i in ("mpc", "mpc-center-in-points", "contact")])
+# per-call / constructor options of the load items under the same resultant clauses: parallel=True (thread flag of
+# assemble.vector), MultiPointContact(skip=): axes that are not connected carry no force, the rest is self-equilibrated
+LOADS_OPTIONS = [dict(item=i, template="RegionQuad", parallel=True) for i in ("bodyforce", "gravity")] + [dict(item="pointload", axi=a, parallel=True) for a in (False, True)] + [dict(item=i, parallel=True) for i in ("mpc", "contact")] + [dict(item="contact", skip=s) for s in ("010", "101")]
+
+
+@contract("C14", "loads", configs=[dict(item=i, template=t) for i in ("bodyforce", "gravity", "mass") for t in ("RegionTriangle", "RegionQuad", "RegionTetra", "RegionQuadraticTriangle")] + [dict(item="pointload", axi=a) for a in (False, True)] + [dict(item="pointload", axi=a, apply_on=1) for a in (False, True)] + [dict(item=i) for i in ("mpc", "mpc-center-in-points", "contact")] + LOADS_OPTIONS)
 def loads(vk, cfg):
     item = cfg["item"]
+    kw = dict(parallel=True) if cfg.get("parallel") else {}  # the resultants do not depend on the thread flag of the call
     if item in ("bodyforce", "gravity", "mass"):
         name = cfg["template"]
         region, X = generic_region(vk, name)
@@ -140,12 +146,12 @@ def loads(vk, cfg):
                 warnings.simplefilter("ignore")
                 it = fem.SolidBodyGravity(fc, gravity=g, density=rho)
             vk.real(fem.SolidBodyGravity._vector)
-        r = np.asarray(dense(vk, lambda: it.assemble.vector(fc))).reshape(n, dim)
+        r = np.asarray(dense(vk, lambda: it.assemble.vector(fc, **kw))).reshape(n, dim)
         vk.ensures_eq("sum==density*acceleration*volume", np.sum(r, axis=0), rho * g * vol, tol=tol)
         # after update(values) the density is still applied (ramped loads)
         g2 = vk.reals("g2", (dim,), near=2.0)
         it.update(g2)
-        r2 = np.asarray(dense(vk, lambda: it.assemble.vector(fc))).reshape(n, dim)
+        r2 = np.asarray(dense(vk, lambda: it.assemble.vector(fc, **kw))).reshape(n, dim)
         vk.ensures_eq("after-update/sum==density*acceleration*volume", np.sum(r2, axis=0), rho * g2 * vol, tol=tol)
         if vk.sym:
             vk.canary("sum==acceleration*volume", np.sum(r, axis=0), g * vol + 1)
@@ -185,7 +191,7 @@ def loads(vk, cfg):
             return
         it = fem.PointLoad(fc, points=pts, values=vals, axisymmetric=axi)
         vk.real(fem.PointLoad._vector)
-        r = np.asarray(dense(vk, lambda: it.assemble.vector(fc))).reshape(npts, 2)
+        r = np.asarray(dense(vk, lambda: it.assemble.vector(fc, **kw))).reshape(npts, 2)
         spec = np.zeros((npts, 2), dtype=object if vk.sym else float)
         if vk.sym:
             spec[...] = LP()
@@ -197,7 +203,7 @@ def loads(vk, cfg):
         vals2 = vk.reals("load2", (2, 2), near=2.0)
         vk.real(fem.PointLoad.update)
         it.update(vals2)
-        r2 = np.asarray(dense(vk, lambda: it.assemble.vector(fc))).reshape(npts, 2)
+        r2 = np.asarray(dense(vk, lambda: it.assemble.vector(fc, **kw))).reshape(npts, 2)
         spec2 = np.zeros((npts, 2), dtype=object if vk.sym else float)
         if vk.sym:
             spec2[...] = LP()
@@ -223,10 +229,17 @@ def loads(vk, cfg):
                     oracle.assume(gap, "<")
                 elif gap0 <= 0 or gap >= 0:
                     raise Skip("sign pattern")
-        it = fem.MultiPointContact(fc, points=[0, 2], centerpoint=4, multiplier=k)
+        skip = tuple(ch == "1" for ch in cfg.get("skip", "000"))
+        it = fem.MultiPointContact(fc, points=[0, 2], centerpoint=4, skip=skip, multiplier=k) if cfg.get("skip") else fem.MultiPointContact(fc, points=[0, 2], centerpoint=4, multiplier=k)
         vk.real(fem.MultiPointContact._vector)
-    r = np.asarray(dense(vk, lambda: it.assemble.vector(fc))).reshape(npts, 3)
+    r = np.asarray(dense(vk, lambda: it.assemble.vector(fc, **kw))).reshape(npts, 3)
     vk.ensures_eq("constraint-forces-self-equilibrated", np.sum(r, axis=0), 0 * r[0])
+    if cfg.get("skip"):
+        sk = np.array([ch == "1" for ch in cfg["skip"]])
+        vk.ensures_eq("skip/no force on an axis that is not connected", r[:, sk], 0 * r[:, sk])
+        if vk.sym:
+            vk.canary("skip/no force on the connected axes either", r[:, ~sk], 0 * r[:, ~sk])
+        return
     if vk.sym:
         vk.canary("constraint-forces==0", r, 0 * r)
 
@@ -325,3 +338,18 @@ def pressure_resultant(vk, cfg):
     snap2 = vk.snapshot(f2.values)
     vk.ensures_eq("field=other-state/resultant==-p*area-vector(other state)", resultant(item, field=fc2), -p2 * area2)
     vk.frame_unchanged("field=other-state/values of the state handed over", f2.values, snap2)
+    # per-call options: the thread flag does not change the resultant; resize= (an array of the enlarged system of a
+    # container with further unknowns) pads the nodal vector with zeros: the displacement block still sums to
+    # -p times the area vector (of the state the item holds now: the other state) and the additional entries carry no force
+    vk.ensures_eq("parallel=True/resultant==-p*area-vector", resultant(item, parallel=True), -p2 * area2)
+    n_u, m_extra = rg.mesh.npoints * dim, 3
+    if vk.sym:
+        item._area_change = StubAreaChange()
+    big = np.asarray(dense(vk, lambda: item.assemble.vector(resize=np.zeros((n_u + m_extra, 1)))))
+    ok = big.shape == (n_u + m_extra, 1)
+    if vk.sym:
+        vk.ensures_true("resize/the nodal vector has the shape of the array handed over", ok, f"{big.shape}", backend="exec")
+    if ok:
+        big = big.reshape(-1)
+        vk.ensures_eq("resize/resultant of the displacement block==-p*area-vector", np.sum(big[:n_u].reshape(-1, dim), axis=0), -p2 * area2)
+        vk.ensures_eq("resize/additional entries carry no force", big[n_u:], 0 * big[n_u:])
